@@ -414,6 +414,22 @@ fn build_quantity(raw: &[(u8, f32, i64, i8, i8)]) -> Vec<QTok> {
     };
     for &(c, v, n, m, sx) in raw {
         let choice = c % 16;
+        // a near twin of the top quantity (same unit, value 0..2 ulps away, or the tiny value itself) followed by a
+        // comparison: equality/ordering of almost-equal and of tiny values must not depend on the configuration
+        if choice == 15 && st.last().map(|t| t.ty == 0).unwrap_or(false) {
+            if let Some(&QTok::PushQ(pv, pm, ps)) = prog.iter().rev().find(|t| matches!(t, QTok::PushQ(..))) {
+                let top = *st.last().unwrap();
+                if top.fresh && top.unit == (pm, ps) {
+                    let twin = f32::from_bits(pv.to_bits().wrapping_add((n.unsigned_abs() % 3) as u32));
+                    let twin = if twin.is_finite() { twin } else { pv };
+                    prog.push(QTok::PushQ(twin, pm, ps));
+                    prog.push(if n % 2 == 0 { QTok::Eq } else { QTok::Lt });
+                    let l = st.len();
+                    st[l - 1].fresh = false;
+                    continue;
+                }
+            }
+        }
         if choice < 5 || st.len() < 2 && choice < 12 {
             match c % 5 {
                 0 | 1 | 2 => {
@@ -542,7 +558,7 @@ fn build_quantity(raw: &[(u8, f32, i64, i8, i8)]) -> Vec<QTok> {
     prog
 }
 fn quantity_step() -> BoxedStrategy<Step> {
-    proptest::collection::vec((any::<u8>(), gen::moderate(), any::<i64>(), 0i8..9, 0i8..9), 2..24).prop_map(|raw| {
+    proptest::collection::vec((any::<u8>(), prop_oneof![5 => gen::moderate(), 2 => gen::wide(), 2 => (any::<bool>(), -30.0f64..-6.0).prop_map(|(n, e)| { let v = 10f64.powf(e) as f32; if n { -v } else { v } })], any::<i64>(), 0i8..9, 0i8..9), 2..24).prop_map(|raw| {
         let raw: Vec<_> = raw.into_iter().map(|(c, v, n, m, s)| (c, v, n, m - 4, s - 4)).collect();
         Step::Quantity(build_quantity(&raw))
     })
